@@ -34,6 +34,7 @@ type SyncSchedScenario struct {
 	Actors    []SchedActor `json:"actors"`
 	Tape      []int        `json:"tape"`
 	Canonical bool         `json:"canonical,omitempty"`
+	RangeErrs int          `json:"range_errs,omitempty"` // the getter fails the first N range requests
 }
 
 func genSyncSched(t *rapid.T) SyncSchedScenario {
@@ -71,6 +72,7 @@ func genSyncSched(t *rapid.T) SyncSchedScenario {
 		s.Actors = append(s.Actors, a)
 	}
 	s.Tape = rapid.SliceOfN(rapid.IntRange(0, 19), 0, 200).Draw(t, "tape")
+	s.RangeErrs = rapid.SampledFrom([]int{0, 0, 0, 1, 2}).Draw(t, "rangeerrs")
 	return s
 }
 
@@ -116,7 +118,7 @@ func runSyncSched(t *testing.T, s SyncSchedScenario) (res Result) {
 		sc := sched.New()
 		sc.Canonical = s.Canonical
 		hsync.VerifSetYield(sc.Yield)
-		e.getter.set(func() { e.getter.Park = sc.Yield })
+		e.getter.set(func() { e.getter.Park, e.getter.RangeErrs = sc.Yield, s.RangeErrs })
 		off := func() {
 			sc.Off()
 			hsync.VerifSetYield(nil)
@@ -264,7 +266,33 @@ func runSyncSched(t *testing.T, s SyncSchedScenario) (res Result) {
 			res.failf("after the schedule: %s", v)
 			return
 		}
-		// heal: the tip arrives once more; the store must reach it
+		// C07's demand under every schedule: without a getter error the store reaches the newest head the
+		// Syncer took (gossip accepted without error, or returned by Head()) with no further stimulus
+		var newest uint64
+		for i, a := range s.Actors {
+			switch {
+			case a.Kind == "head" && obs[i].Err == "":
+				newest = max(newest, obs[i].Head)
+			case a.Kind == "gossip" && a.Adv == "" && obs[i].Err == "":
+				newest = max(newest, prefill+uint64(min(max(a.K, 1), s.Net)))
+			}
+		}
+		getterErr := false
+		for _, c := range e.getter.Calls() {
+			if c.Err != "" {
+				getterErr = true
+			}
+		}
+		if sh, err := e.st.Head(ctx); !getterErr && newest > 0 && (err != nil || sh.H < newest) {
+			res.failf("after the schedule, at quiescence and without any getter error: the Syncer took head %d but the store head is (%v, %v), state %+v", newest, sh, err, e.syncer.State())
+			return
+		}
+		// heal: the getter is fine again and a new head is learned (a sync aborted by a getter error is only
+		// resumed by the next learned head); the store must reach it
+		e.getter.set(func() { e.getter.RangeErrs = 0 })
+		tip++
+		e.getter.SetTip(tip)
+		time.Sleep(delta)
 		gctx, gcancel := context.WithTimeout(ctx, time.Hour)
 		_ = e.sub.deliver(gctx, chain.At(tip))
 		gcancel()
@@ -300,12 +328,14 @@ func TestC03Sched(t *testing.T) {
 //	2: store [1,2], network at 5; headers 4 and 5 are gossiped concurrently
 //	3: store [1,2], network at 4; the tip is gossiped, then a Head() caller runs (racing the sync)
 //	4: store [1,2], network at 5; the tip and a forged header of height 4 are gossiped concurrently
+//	5: store [1,2], network at 5; header 4 is gossiped, then header 5; the getter fails the first range request
 var c03EnumConfigs = []SyncSchedScenario{
 	{Prefill: 2, Net: 3, Actors: []SchedActor{{Kind: "gossip", K: 3}, {Kind: "gossip", K: 1, Adv: "twin", After: 1}}},
 	{Prefill: 2, Net: 1, Actors: []SchedActor{{Kind: "gossip", K: 1}, {Kind: "head"}}},
 	{Prefill: 2, Net: 3, Actors: []SchedActor{{Kind: "gossip", K: 2}, {Kind: "gossip", K: 3}}},
 	{Prefill: 2, Net: 2, Actors: []SchedActor{{Kind: "gossip", K: 2}, {Kind: "head", After: 1}}},
 	{Prefill: 2, Net: 3, Actors: []SchedActor{{Kind: "gossip", K: 3}, {Kind: "gossip", K: 2, Adv: "forged"}}},
+	{Prefill: 2, Net: 3, RangeErrs: 1, Actors: []SchedActor{{Kind: "gossip", K: 2}, {Kind: "gossip", K: 3, After: 1}}},
 }
 
 func TestC03Enum(t *testing.T) {
@@ -318,5 +348,5 @@ func TestC03Enum(t *testing.T) {
 		c := *s.Sched
 		c.Tape, c.Canonical = tape, true
 		return SyncScenario{Sched: &c}
-	}, runC03, map[int]bool{0: true, 1: true, 3: true, 4: true})
+	}, runC03, map[int]bool{0: true, 1: true, 3: true, 4: true, 5: true})
 }
